@@ -835,7 +835,6 @@ package mail
 // The key invariant is lcol + charLength == 74: charLength is what is left of a 74-character line.
 //@ pred hkeyok(key string) = len(key) >= 1 && len(key) <= 70 && nocrlf(key) && noblank(key)
 //@ func mail.msgWriter.writeHeader (key, values)
-//@   requires[C18:values] valsafe(values)
 //@   loop 1 invariant[C18:line] hkeyok(key) ==> (wordsafe(words) && (forall j :: 0 <= j && j < len(words) ==> noblank(words[j])) && buffer.lcol + charLength == 74 && buffer.lcol >= 1 && (buffer.lcol > 74 ==> buffer.lstate == 1) && 0 <= rangeindex + 1)
 //@ at mail.msgWriter.writeHeader strings.Builder.WriteString#3 before assert[C18:header-line-length-at-fold] hkeyok(key) ==> (buffer.lcol <= 78 || buffer.lstate == 1)
 //@ at mail.msgWriter.writeHeader strings.Builder.String#1 before assert[C18:header-line-length] hkeyok(key) ==> (buffer.lcol <= 78 || buffer.lstate == 1)
@@ -1049,3 +1048,13 @@ package mail
 //@   ensures[C12:count] n == writer.sinkacc - old(writer.sinkacc)
 //@   ensures[C12:failure-reported] (writer.wfailed && !old(writer.wfailed)) ==> err != nil
 //@   ensures[C12:producer-failure-reported] (m.prefailed || m.renderfailed) ==> err != nil
+
+// C18 (continued): the header lines of a part at nesting depth > 0 are written by multipart.Writer.CreatePart
+// exactly as the values are handed over - "Key: value", no folding. A value that carries caller text (a
+// description, a file name) must therefore fit the line or be a single token. (OPEN FINDING: it is neither for a
+// long description or a long file name with blanks; at depth 0 the same values go through writeHeader and are folded.)
+//@ pred linefits(k string, v string) = len(k) + 2 + len(v) <= 78 || noblank(v)
+//@ at mail.msgWriter.writePart textproto.MIMEHeader.Add#1 before assert[C18:part-description-line-unfolded] linefits(arg1, arg2)
+//@ at mail.msgWriter.addFiles mail.File.setHeader#1 before assert[C18:file-type-line-unfolded] mw.depth > 0 ==> linefits(arg1, arg2)
+//@ at mail.msgWriter.addFiles mail.File.setHeader#3 before assert[C18:file-description-line-unfolded] mw.depth > 0 ==> linefits(arg1, arg2)
+//@ at mail.msgWriter.addFiles mail.File.setHeader#4 before assert[C18:file-disposition-line-unfolded] mw.depth > 0 ==> linefits(arg1, arg2)
